@@ -475,13 +475,35 @@ class Gen:
         return {"bodies": bodies, "steps": steps, "src": "gen-byz"}
 
 
+def with_restart(sc, rnd):
+    """The node process dies and comes back at some point of the history (new Processor on the same store); it
+    re-learns the guardian set that was current (or not yet: then it has none for a while)."""
+    steps = sc["steps"]
+    if len(steps) < 4 or any(st["ev"] in ("StoreDown", "ReqCap") for st in steps):
+        return sc
+    pos = rnd.randrange(2, len(steps))
+    cur = None
+    for st in steps[:pos]:
+        if st["ev"] == "SetUpdate":
+            cur = st
+    ins = [{"ev": "Restart", "a": {"x": 0}}]
+    if cur is not None and rnd.random() < 0.8:
+        ins.append(json.loads(json.dumps(cur)))
+    sc["steps"] = steps[:pos] + ins + steps[pos:]
+    sc["src"] = sc.get("src", "") + "+restart"
+    return sc
+
+
 def gen_scenarios(seed_, n, profile):
     rnd = random.Random("%s-%d" % (profile, seed_))
     g = Gen(rnd)
     res = []
     for _ in range(n):
         x = getattr(g, profile)()
-        res += x if isinstance(x, list) else [x]
+        xs = x if isinstance(x, list) else [x]
+        if profile in ("aggregation", "setchange", "cleanup", "governance", "adversarial"):
+            xs = [with_restart(sc, rnd) if rnd.random() < 0.15 else sc for sc in xs]
+        res += xs
     return res
 
 
